@@ -55,7 +55,7 @@ impl Prop for C14 {
 
     fn profiles(tier: Tier) -> Vec<Profile> {
         match tier {
-            Tier::Quick => vec![prof("traces", 20_000)],
+            Tier::Quick => vec![prof("traces", 60_000)],
             Tier::Thorough => vec![prof("traces", 1_000_000)],
         }
     }
